@@ -7,6 +7,13 @@ import (
 
 // ApplyFilter applies a filter to a value
 func (ctx *RenderContext) ApplyFilter(name string, value interface{}, args ...interface{}) (interface{}, error) {
+	// Sandbox check: every filter application passes through here
+	if ctx.sandboxed {
+		if ctx.env == nil || ctx.env.securityPolicy == nil || !ctx.env.securityPolicy.IsFilterAllowed(name) {
+			return nil, NewFilterViolation(name)
+		}
+	}
+
 	// Look for the filter in the environment
 	if ctx.env != nil {
 		if filter, ok := ctx.env.filters[name]; ok {
